@@ -48,6 +48,9 @@ for d in sorted(glob.glob('seeded/*/')):
         v = [l for l in lines if l.startswith('VIOLATION')]
         if v:
             res = 'caught: VIOLATION' + (' (no-failing-input-found)' if 'no-failing-input-found' in v[0] else ' with replay')
+            extra = [l for l in open(rp).read().split('\n') if l.startswith(('failing input found for:', 'no longer checks:'))]
+            if extra:
+                res += ' - ' + extra[0][:170]
         elif lines:
             res = 'MISSED: ' + lines[0][:60]
         else:
@@ -58,8 +61,19 @@ for d in sorted(glob.glob('seeded/*/')):
         if hist:
             res += ' (earlier runs: ' + ', '.join(hist) + '; the check was strengthened, see 0.5)'
     def cell(x):
-        return str(x).replace('|', '/').replace('\n', ' ')[:260]
+        return str(x).replace('|', '/').replace('\n', ' ')[:200]
     out.append('| %s | %s | %s | %s |' % (sid, cell(meta.get('summary', '')), cell(meta.get('needs', '')), res))
+import collections
+cnt = collections.Counter()
+for l in out:
+    if l.startswith('| C') and '| caught' in l:
+        cnt['caught with a failing input' if 'with replay' in l else 'caught, no failing input found'] += 1
+        if 'earlier runs' in l:
+            cnt['of which escaped an earlier version of the check'] += 1
+    elif l.startswith('| C') and 'MISSED' in l:
+        cnt['missed'] += 1
+out.append('')
+out.append('Totals over the %d seeded changes: ' % sum(1 for l in out if re.match(r'^\| C\d\d-', l)) + '; '.join('%s: %d' % kv for kv in sorted(cnt.items())) + '.')
 text = '\n'.join(out) + '\n'
 src = open('DESIGN.md').read()
 a, b = '<!-- STATUS:BEGIN -->', '<!-- STATUS:END -->'
